@@ -40,6 +40,9 @@ PAYLOADS = {
     "word-asynciterator": "returns an AsyncIterator of items", "word-default-factory": "uses default_factory internally", "word-yield": "yield per item",
     "word-field": "see field(default=None)", "word-optional": "Optional[str] or List[int]", "word-type-checking": "if TYPE_CHECKING: import x",
     "word-notimplemented": "raise NotImplementedError()", "word-async-def": "async def handler(self) -> None:", "word-dataclass": "@dataclass class X:",
+    # hostile text on the SECOND line of a multi-line text (sites that clean a text line by line)
+    "lf-then-triple-dquote": 'first line\nsecond """ line', "lf-then-backslash-end": "first line\nsecond line\\",
+    "lf-then-close-reopen": 'first\n"""\n    injected = 1\n    """tail', "lf-then-triple-squote": "first line\nsecond \'\'\' line",
     # alphanumeric for a regular expression, not legal in a Python identifier
     "superscript": "area_m²", "subscript": "CO₂", "fraction": "T½x", "circled": "①x",
 }
